@@ -71,8 +71,8 @@ ASSUMPTIONS = [
     "store_history/silent and valid execute requests on control are not generated (not covered by the text)",
 ]
 TIERS = {
-    "quick": {"runs": 4000, "chunk": 125, "max_reqs": 10, "shrink_budget": 30, "max_shrink": 4},
-    "thorough": {"runs": 60000, "chunk": 500, "max_reqs": 12, "chunk_timeout": 2400, "shrink_budget": 60,
+    "quick": {"runs": 3000, "chunk": 100, "max_reqs": 10, "shrink_budget": 30, "max_shrink": 4},
+    "thorough": {"runs": 120000, "chunk": 500, "max_reqs": 12, "chunk_timeout": 2400, "shrink_budget": 60,
                  "max_shrink": 6},
 }
 REACH_PROBES = [
@@ -501,6 +501,8 @@ def _gen_proto_mode(rng: random.Random, tier: str) -> dict:
         first = _gen_req(rng, 1000 + pos, key, False)
         first.update({"mt": "execute_request", "sep": "\n",
                       "cell": [["print", ["s", f"m{pos}"]], ["raise", rng.choice(ERRS), f"motif {pos}"]]})
+        if rng.random() < 0.35:
+            first["cell"] = [["print", ["s", f"m{pos}"]]]  # same, but the printing cell succeeds
         first.pop("content", None)
         second = _gen_req(rng, 1001 + pos, key, False)
         second.pop("passes", None)
